@@ -235,7 +235,10 @@ class ChangeDistiller:
                 source_non_expression_leaves = dict(_get_non_expression_leaves(source_node))
                 target_non_expression_leaves = dict(_get_non_expression_leaves(target_node))
 
-                if source_non_expression_leaves != target_non_expression_leaves:
+                if source_non_expression_leaves != target_non_expression_leaves or (
+                    not identical_nodes
+                    and _get_ignored_leaves(source_node) != _get_ignored_leaves(target_node)
+                ):
                     edit_script.append(Update(source_node, target_node))
                 elif not delta_only:
                     edit_script.append(Keep(source_node, target_node))
@@ -393,6 +396,16 @@ def _get_non_expression_leaves(expression: exp.Expr) -> Iterator[tuple[str, t.An
             continue
 
         yield (arg, value)
+
+
+def _get_ignored_leaves(expression: exp.Expr) -> list[tuple[str | None, exp.Expr]]:
+    # Ignored leaves (identifiers) never get edits of their own, so a change confined to them has
+    # to surface as an Update of the node that owns them.
+    return [
+        (node.arg_key, node)
+        for node in expression.iter_expressions()
+        if isinstance(node, IGNORED_LEAF_EXPRESSION_TYPES)
+    ]
 
 
 def _is_same_type(source: exp.Expr, target: exp.Expr) -> bool:
